@@ -357,6 +357,20 @@ func (c *vpC38Case) run() ([]string, string) {
 	counts := map[string]int{}
 	rmu.Lock()
 	defer rmu.Unlock()
+	// The slack grows with the scheduling latency observed in this very case (longest heartbeat
+	// gap, latest control timer); on a quiet machine it is the nominal 1 s.
+	sched := beat.maxGap()
+	for _, r := range results {
+		if tw := r.twin.Load(); tw != 0 {
+			if d := time.Unix(0, tw).Sub(r.deadline); d > sched {
+				sched = d
+			}
+		}
+	}
+	slack := vpC38Slack + 4*sched
+	if sched > 20*time.Millisecond {
+		vpExtra("C38.cases_with_sched_latency_over_20ms", 1)
+	}
 	for _, r := range results {
 		k := r.call
 		if !r.returned {
@@ -394,9 +408,9 @@ func (c *vpC38Case) run() ([]string, string) {
 		}
 		late := r.t1.Sub(r.deadline)
 		netLate := r.t1.Sub(ref) - beat.lost(ref, r.t1)
-		if netLate > vpC38Slack {
+		if netLate > slack {
 			viol = append(viol, fmt.Sprintf("call id=%d (deadline %dms) returned %v only %v after its deadline (%v net of starvation; slack %v)",
-				k.ID, k.DeadlineMs, r.err, late, netLate, vpC38Slack))
+				k.ID, k.DeadlineMs, r.err, late, netLate, slack))
 		}
 	}
 	if mp := int(maxPending.Load()); mp > bound {
